@@ -161,7 +161,8 @@ class ExecutionContext(AbstractContext):
         key_hash = self.key.public_key_hash()
         mempool = self.shell.mempool.pending_operations()
 
-        for operation in chain(mempool.get('applied', []), mempool.get('unprocessed', [])):
+        # NOTE: prevalidated operations are listed as `validated` by current octez versions, `applied` by older ones
+        for operation in chain(mempool.get('validated', []), mempool.get('applied', []), mempool.get('unprocessed', [])):
             if isinstance(operation, list):
                 operation = operation[1]
             for content in operation.get('contents', []):
